@@ -41,6 +41,7 @@ func contextAtEdge(fn *ssa.Function, b, succ *ssa.BasicBlock) *prover {
 			p.addGuard(a)
 		}
 	}
+	p.addExecutedChecks(fn, lastInstr(b))
 	return p
 }
 
@@ -54,7 +55,11 @@ func isLoopHeaderPhi(ph *ssa.Phi) bool {
 }
 
 // phisIn collects the φ values an instruction's bounds depend on (through arithmetic, len, slices).
-func phisIn(in ssa.Instruction) []*ssa.Phi {
+func phisIn(in ssa.Instruction) []*ssa.Phi { return phisInOpt(in, false) }
+
+// phisInOpt with deep also looks through merge (non-loop) φs into their incoming values: a value computed by an
+// earlier, finished loop often reaches the site through such a merge (`x := loopResult; if found { … }`).
+func phisInOpt(in ssa.Instruction, deep bool) []*ssa.Phi {
 	var out []*ssa.Phi
 	seen := map[ssa.Value]bool{}
 	var walk func(v ssa.Value, d int)
@@ -66,6 +71,11 @@ func phisIn(in ssa.Instruction) []*ssa.Phi {
 		switch t := v.(type) {
 		case *ssa.Phi:
 			out = append(out, t)
+			if deep && !isLoopHeaderPhi(t) {
+				for _, e := range t.Edges {
+					walk(e, d+1)
+				}
+			}
 		case *ssa.BinOp:
 			walk(t.X, d+1)
 			walk(t.Y, d+1)
@@ -324,7 +334,7 @@ func enclosingHeaders(b *ssa.BasicBlock) []*ssa.BasicBlock {
 func proveWithInvariants(fn *ssa.Function, in ssa.Instruction, goalIdx int) bool {
 	hds := enclosingHeaders(in.Block())
 	// also loops that have already finished but whose φ the site uses (values defined at a loop header that dominates the site)
-	for _, ph := range phisIn(in) {
+	for _, ph := range phisInOpt(in, true) {
 		if isLoopHeaderPhi(ph) {
 			found := false
 			for _, h := range hds {
